@@ -84,7 +84,9 @@ def o15_11_level_iter_damaged(mir, tier):
     again (free targets).  Reference: a call fails iff the entry it has to land on lives in the damaged table; a call that
     returns Ok leaves the cursor exactly on the reference entry (or invalid past the end) - never on an entry of another table
     because the damaged one was skipped."""
-    ops = {n: mir.method('FilesEntryIterator', n, 'RainDbIterator') for n in ('seek', 'seek_to_first', 'seek_to_last', 'is_valid', 'current')}
+    ops = {n: mir.method('FilesEntryIterator', n, 'RainDbIterator') for n in ('seek', 'seek_to_first', 'seek_to_last', 'is_valid', 'current', 'next', 'prev')}
+    LABEL_SPIN = 'a step (next / prev) from the neighbouring table into a table that cannot be opened never returns (the scan - and a compaction reading that level - spins for ever)'
+    LABEL_STEP = 'a step (next / prev) into a table that cannot be opened lands on an entry of another table (the damaged table is skipped silently)'
     shapes = [(2, 0), (2, 1), (3, 1)] if tier == 'quick' else [(2, 0), (2, 1), (3, 0), (3, 1), (3, 2)]
     res = Result('O15.11 FilesEntryIterator with an unreadable table', [f.path for f in ops.values()] + ['set_table_iter, skip_empty_table_files_forward/backward, find_file_with_upper_bound_range (inlined)'],
                  '(files, damaged file) in %s, one entry per file; call sequences (first | last | seek T1), seek T2, seek T2 with free targets; table cursors = RainDbIterator contract' % (shapes,))
@@ -146,6 +148,22 @@ def o15_11_level_iter_damaged(mir, tier):
                                         res.violations.append({'label': lab, 'files': F, 'damaged': bad, 'step': i, 'replay': ['level_iter_damaged', ','.join(opsn), str(bad), '%s:%d' % (key_bytes(mval(m, T1[0])), mval(m, T1[1])), '%s:%d' % (key_bytes(mval(m, T2[0])), mval(m, T2[1])), ','.join(['1'] * F)] +
                                                                ['%s:%d:%d:%02x' % (key_bytes(mval(m, ke[0])), mval(m, ke[1]), mval(m, ke[2]), mval(m, ents[j][1])) for j, ke in enumerate(KE)]})
                                     res.cases['%d files, damaged %d, %s, step %d' % (F, bad, first_op, i)] = 1
+                                    if i == 0 and not failed and li is not None and abs(li - bad) == 1:
+                                        # one relative step from the neighbouring table into the damaged one: it has to return, and it must not produce an entry
+                                        stepop = 'next' if li + 1 == bad else 'prev'
+                                        def after_step(r, e5, p5):
+                                            def v5(vv, e6, p6):
+                                                okv = Not(vv) if not isinstance(vv, bool) else BoolVal(not vv)
+                                                res.cases['%d files, damaged %d, %s then %s' % (F, bad, first_op, stepop)] = 1
+                                                for lab, post, m in ex.check_posts([(LABEL_STEP, okv)], p6):
+                                                    res.violations.append({'label': lab, 'files': F, 'damaged': bad, 'step': stepop, 'replay': ['scan_over_unopenable_table']})
+                                            ex.run_fn(ops['is_valid'], [Ref('$it')], e5, p5, v5)
+                                        nb = len(ex.bound_hits)
+                                        ex.run_fn(ops[stepop], [Ref('$it')], dict(e4), pcx, after_step)
+                                        if len(ex.bound_hits) > nb:
+                                            del ex.bound_hits[nb:]
+                                            ex.record_formula(LABEL_SPIN, pcx, BoolVal(True))
+                                            res.violations.append({'label': LABEL_SPIN, 'files': F, 'damaged': bad, 'step': stepop, 'replay': ['scan_over_unopenable_table'], 'expect_hang': False})
                                     drive(i + 1, e4, pcx, trace + [li])
                                 ex.under(cond, chk)
                         ex.run_fn(ops['current'], [Ref('$it')], e3, p3, got_cur)
@@ -171,5 +189,8 @@ def o15_11_level_iter_damaged(mir, tier):
 
 def o15_11_confirm(v, out):
     """Native: real table files, the footer of the damaged one altered, the real FilesEntryIterator driven through the calls."""
+    if v['replay'][0] == 'scan_over_unopenable_table':
+        if out.get('_rc') != 0 and not out.get('_timeout'): return (False, 'native run failed: %s' % out.get('_stderr', '')[-300:])
+        return (out.get('stuck', '1') != '0' or bool(out.get('_timeout')), 'native: two adjacent tables in one level, one of them cannot be opened after a reopen: %s' % out.get('scans'))
     if out.get('_rc') != 0: return (True, 'native level iterator panicked: %s' % out.get('_stderr', '')[-200:])
     return (out.get('steps') != out.get('expected') and out.get('steps') != 'build-failed', 'native steps %s, expected %s' % (out.get('steps'), out.get('expected')))
